@@ -2,7 +2,8 @@ import RedunModel.Proto
 import RedunModel.Model.Monitor
 open RedunModel RedunModel.Monitor
 
-/- request: `run <docker|batch|k8s|gcp|glue> <arrayer max_array_size, i0 = unbounded> (<job id>*) (<S | A | F | (M k) | (U k)>*)`   (F = the environment arms one transient cloud error)   (ints as i<n>)
+/- request: `run <docker|batch|k8s|gcp|glue> <arrayer max_array_size, i0 = unbounded> (<job id>*) (<S | A | F | (M k) | (U k)>*)`   (F = the environment arms one transient cloud error; (L j) = the first listing names
+            an in-flight cloud job for j; (O j T|F) = that cloud job changes state, T = the API no longer describes it)   (ints as i<n>)
    reply:   per schedule letter `(<label executed> <state after>)` or `blocked`, separated by ` | `,
             then ` | (final <state>)`.
    state ::= (flag T|F) (pend (ids)) (queue (ids)) (arr T|F) (rep (ids)) (crash n) (hit T|F) (S <lbl>|-)
@@ -23,12 +24,14 @@ def showState (V : Variant) (s : State) : String :=
     | .unstarted => "new" | .dead => "dead" | _ => lblStr (labelM V m))
   let subs := " ".intercalate (s.subs.map fun u => match u.ph with
     | .unstarted => "new" | .dead => "dead" | _ => lblStr (labelU V u))
-  s!"(flag {tf s.flag}) (pend {ids s.pending}) (queue {ids s.queue}) (arr {tf s.arrAlive}) (rep {ids s.reported}) (crash {atomOfInt (Int.ofNat s.crashes)}) (num {atomOfInt (Int.ofNat s.queue.length)}) (armed {tf s.armed}) (hit {tf s.hit}) (S {lblStr (labelS V s)}) (mons {mons}) (subs {subs}) (lost {ids (lost s)})"
+  s!"(flag {tf s.flag}) (pend {ids s.pending}) (queue {ids s.queue}) (arr {tf s.arrAlive}) (rep {ids s.reported}) (crash {atomOfInt (Int.ofNat s.crashes)}) (num {atomOfInt (Int.ofNat s.queue.length)}) (armed {tf s.armed}) (pre {ids s.pre}) (hit {tf s.hit}) (S {lblStr (labelS V s)}) (mons {mons}) (subs {subs}) (lost {ids (lost s)})"
 
 def parseEv : Sexp → Option Ev
   | .atom "S" => some .S
   | .atom "A" => some .A
   | .atom "F" => some .F
+  | .list [.atom "L", .atom j] => (natOfAtom j).map .L
+  | .list [.atom "O", .atom j, .atom g] => (natOfAtom j).bind (fun j => if g = "T" then some (.O j true) else if g = "F" then some (.O j false) else none)
   | .list [.atom "M", .atom k] => (natOfAtom k).map .M
   | .list [.atom "U", .atom k] => (natOfAtom k).map .U
   | _ => none
@@ -39,6 +42,8 @@ def execLabel (V : Variant) (s : State) : Ev → Option Lbl
   | .U k => (s.subs[k]?).bind (labelU V)
   | .A => some 0
   | .F => none
+  | .L _ => none
+  | .O _ _ => none
 
 def runTrace (V : Variant) : State → List Ev → List String → List String
   | s, [], acc => (s!"(final {showState V s})" :: acc).reverse
